@@ -104,6 +104,12 @@ Theorem C04_ID3Header_total : forall bytes, c04_input bytes ->
 Proof. exact id3header_total. Qed.
 Print Assumptions C04_ID3Header_total.
 
+(* determine_bpi(data, Frames): both counting loops end within len + 1 rounds, nothing is raised *)
+Theorem C04_ID3_determine_bpi_total : forall data, Forall (fun x => 0 <= x < 256) data ->
+  exists b, id3_determine_bpi data = Ok b /\ (b = 7 \/ b = 8).
+Proof. exact determine_bpi_total. Qed.
+Print Assumptions C04_ID3_determine_bpi_total.
+
 (* ---- 8. MP4: Atom.__init__ / Atoms.__init__ (recursive container parse) under MP4.load's mapping ---- *)
 Theorem C04_MP4_total : forall bytes, c04_input bytes ->
   match mp4_atoms_load bytes with Ok _ => True | Raise e => e = EMutagen end.
